@@ -256,7 +256,8 @@ def main(argv=None):
                                           "rejected": Counter(), "excluded": Counter(), "samples": [],
                                           "violations": [], "skipped_budget": 0, "shards": 0, "info": Counter()})
             if r.get("harness_error"):
-                harness_errors.append(f"arm {arm.name} shard {k}: {r['harness_error'][-1500:]}")
+                he = r['harness_error']
+                harness_errors.append(f"arm {arm.name} shard {k}: {he[:600]} ... {he[-900:]}")
                 continue
             a["shards"] += 1
             a["evaluations"] += r["evaluations"]
@@ -365,7 +366,7 @@ def main(argv=None):
         "unreproducible": [u[:2] for u in unreproducible],
         "inconclusive_after_budget": int(inconclusive),
         "missing_required_labels": missing_labels,
-        "harness_errors": [h[-400:] for h in harness_errors][:5],
+        "harness_errors": [h[:400] for h in harness_errors][:5],
         "repo": os.environ.get("PV_REPO", "/repo"),
     }
     evidence = {
